@@ -187,6 +187,160 @@ async def _session(seed: int, *, bounded: bool = False) -> dict[str, Any]:
     }
 
 
+async def _connect(rng: random.Random, cap: int | None, frag_choices: list[Any]) -> tuple[Any, Any, Any, Any, Any, bool]:
+    from easynetwork.lowlevel.api_async.backend._asyncio.backend import AsyncIOBackend
+    from easynetwork.lowlevel.api_async.transports.tls import AsyncTLSStreamTransport
+
+    backend = AsyncIOBackend()
+    lib2peer = memtransport.MemPipe(fragment=rng.choice(frag_choices), capacity=cap)
+    peer2lib = memtransport.MemPipe(fragment=rng.choice(frag_choices), capacity=cap)
+    inner = memtransport.MemStreamTransport(backend, peer2lib, lib2peer)
+    lib_is_server = rng.random() < 0.5
+    peer = tlspeer.Peer(lib2peer, peer2lib, server_side=not lib_is_server)
+    hs = asyncio.ensure_future(peer.handshake())
+    if lib_is_server:
+        tls = await AsyncTLSStreamTransport.wrap(inner, tlspeer.server_context(), server_side=True, handshake_timeout=60)
+    else:
+        tls = await AsyncTLSStreamTransport.wrap(inner, tlspeer.client_context(), server_hostname="localhost", handshake_timeout=60)
+    await hs
+    return backend, lib2peer, inner, peer, tls, lib_is_server
+
+
+async def _pingpong_session(seed: int) -> dict[str, Any]:
+    """Request / response: the library side's reader is parked in recv() *before* its writer sends a request, and the peer says
+    nothing until it has received the whole request (then it answers; several rounds, either side may start)."""
+    rng = random.Random(seed)
+    backend, lib2peer, inner, peer, tls, lib_is_server = await _connect(rng, rng.choice([None, 4096]), [1, 7, 1500, None])
+    events: list[dict[str, Any]] = []
+
+    def ev(kind: str, d: str = "", n: int = 0, ok: bool = False) -> None:
+        events.append({"ev": kind, "d": d, "n": n, "ok": ok})
+
+    rounds = [(rng.choice([1, 17, 1000, 16384, 16385, 70000]), rng.choice([1, 17, 1000, 40000])) for _ in range(rng.randint(1, 4))]
+    problem = ""
+
+    async def lib_read_exactly(n: int, expected: bytes) -> None:
+        got = 0
+        while got < n:
+            data = await tls.recv(rng.choice([1, 100, 65536]))
+            if not data:
+                ev("eof", "in")
+                return
+            ev("read", "in", len(data), data == expected[got : got + len(data)])
+            got += len(data)
+
+    async def lib_side() -> None:
+        for i, (req, resp) in enumerate(rounds):
+            request = bytes([65 + i]) * req
+            response = bytes([97 + i]) * resp
+            reader = asyncio.ensure_future(lib_read_exactly(resp, response))
+            for _ in range(rng.randint(3, 8)):
+                await asyncio.sleep(0)  # the reader is parked in the wrapped transport's recv by now
+            ev("write", "out", req)
+            await tls.send_all(request)
+            await reader
+
+    async def peer_side() -> None:
+        for i, (req, resp) in enumerate(rounds):
+            request = bytes([65 + i]) * req
+            got = await peer.read_exactly(req)
+            ev("read", "out", len(got), got == request)
+            ev("write", "in", resp)
+            await peer.write(bytes([97 + i]) * resp)
+
+    tasks = [asyncio.ensure_future(lib_side()), asyncio.ensure_future(peer_side())]
+    done, pending = await asyncio.wait(tasks, timeout=600)
+    for t in done:
+        if t.exception() is not None:
+            problem = f"{type(t.exception()).__name__}: {t.exception()}"
+    if pending:
+        problem = "timeout"
+        for t in pending:
+            t.cancel()
+    blob = b"".join(lib2peer.log)
+    ev("wire", ok=tlspeer.parse_records(blob)[0])
+    ev("problem:" + problem[:60]) if problem else ev("end")
+    return {"events": events, "meta": f"request/response seed={seed} role={'server' if lib_is_server else 'client'} rounds(request,response)={rounds} problem={problem}"}
+
+
+async def _abandoned_sender_session(seed: int) -> dict[str, Any]:
+    """Back-pressure: a first send_all(A) is blocked (the peer is not reading), a second send_all(B) queues behind it and is cancelled
+    while queued, then the peer reads and a third send_all(C) follows.  The peer must be able to decrypt everything and read
+    A, then a prefix of B (what TLS had already accepted; possibly nothing), then C."""
+    rng = random.Random(seed)
+    backend, lib2peer, inner, peer, tls, lib_is_server = await _connect(rng, 4096, [1500, None])
+    events: list[dict[str, Any]] = []
+
+    def ev(kind: str, d: str = "", n: int = 0, ok: bool = False) -> None:
+        events.append({"ev": kind, "d": d, "n": n, "ok": ok})
+
+    A = b"A" * rng.choice([30000, 100000])
+    B = b"B" * rng.choice([1, 1000, 20000])
+    C = b"C" * rng.choice([1, 500, 30000])
+    wa = asyncio.ensure_future(tls.send_all(A))
+    for _ in range(rng.randint(5, 30)):
+        await asyncio.sleep(0)
+    wb = asyncio.ensure_future(tls.send_all(B))
+    for _ in range(rng.randint(1, 30)):
+        await asyncio.sleep(0)
+    wb.cancel()
+    await asyncio.gather(wb, return_exceptions=True)
+    b_finished = wb.done() and not wb.cancelled() and wb.exception() is None
+    got = bytearray()
+    problem = ""
+
+    async def peer_reader(total_min: int) -> None:
+        while len(got) < total_min:
+            data = await peer.read(65536)
+            if not data:
+                return
+            got.extend(data)
+
+    async def until_c() -> None:
+        # C is the only place where b"C" occurs
+        while got.count(b"C") < len(C):
+            data = await peer.read(65536)
+            if not data:
+                return
+            got.extend(data)
+
+    try:
+        pr = asyncio.ensure_future(peer_reader(len(A)))
+        await asyncio.wait([wa, pr], timeout=300)
+        reader = asyncio.ensure_future(until_c())
+        wc = asyncio.ensure_future(tls.send_all(C))
+        done, pending = await asyncio.wait([reader, wc], timeout=300)
+        if pending:
+            problem = "timeout"
+            for t in pending:
+                t.cancel()
+        for t in done:
+            if t.exception() is not None:
+                raise t.exception()  # type: ignore[misc]
+    except ssl.SSLError as exc:
+        problem = f"peer could not decrypt: {type(exc).__name__}"
+    except OSError as exc:
+        problem = f"{type(exc).__name__}: {exc}"
+    nb = bytes(got).count(b"B")
+    expected = A + B[:nb] + C
+    ev("write", "out", len(A))
+    ev("write", "out", nb)  # an abandoned write counts for what TLS had accepted of it
+    ev("write", "out", len(C))
+    ev("read", "out", len(got), bytes(got) == expected and (nb == len(B) or not b_finished))
+    ev("wire", ok=tlspeer.parse_records(b"".join(lib2peer.log))[0])
+    ev("problem:" + problem[:60]) if problem else ev("end")
+    return {"events": events, "meta": f"abandoned queued sender seed={seed} role={'server' if lib_is_server else 'client'} A={len(A)} B={len(B)} C={len(C)} B_delivered={nb} problem={problem}"}
+
+
+def _run_special(fn: Any, seed: int) -> dict[str, Any]:
+    try:
+        return vloop.run(lambda: fn(seed), spin_limit=200000)
+    except vloop.VirtualDeadlock:
+        return {"events": [dict(EVD, ev="deadlock")], "meta": f"{fn.__name__} seed={seed} VirtualDeadlock: nobody can make progress"}
+    except Exception as exc:  # noqa: BLE001
+        return {"events": [dict(EVD, ev="exception")], "meta": f"{fn.__name__} seed={seed} {type(exc).__name__}: {exc}"}
+
+
 def _run_session(seed: int, bounded: bool) -> dict[str, Any]:
     try:
         return vloop.run(lambda: _session(seed, bounded=bounded), spin_limit=200000)
@@ -278,13 +432,16 @@ def run(chk: Check) -> None:
     chk.rule = (
         "sessions = seeded: role (client/server), per-direction fragmentation of the ciphertext (1, 7, 100, 1500, 16384, unlimited, random), 1-5 writes per "
         "direction of 1 B .. 600 KB, both directions concurrently with reader and writer tasks on both sides, send_all / send_all_from_iterable (with an "
-        "empty chunk), recv / recv_into, orderly close; plus bounded-pipe sessions (4 KiB per direction) and blocking-transport sessions"
+        "empty chunk), recv / recv_into, orderly close; plus bounded-pipe sessions (4 KiB per direction), blocking-transport sessions, request/response sessions "
+        "(reader parked before the writer sends, silent peer until the request is complete) and sessions in which a queued sender is cancelled under back-pressure"
     )
     _model(chk, quick)
     rec = [_run_session(chk.seed * 1009 + i, False) for i in range(40 if quick else 600)]
     rec_b = [_run_session(chk.seed * 4001 + i, True) for i in range(6 if quick else 60)]
     rec_s = [_blocking_session(chk.seed * 17 + i) for i in range(6 if quick else 60)]
-    allrec = rec + rec_b + rec_s
+    rec_p = [_run_special(_pingpong_session, chk.seed * 7919 + i) for i in range(12 if quick else 200)]
+    rec_a = [_run_special(_abandoned_sender_session, chk.seed * 6007 + i) for i in range(8 if quick else 100)]
+    allrec = rec + rec_b + rec_s + rec_p + rec_a
     slim = [{"events": traces.uniform(t["events"], EVD)} for t in allrec]
     res = traces.validate("TLSStreamTrace", slim, cfg_text=TRACE_CFG, parallel=8, chunk=200)
     chk.traces += len(allrec)
@@ -294,7 +451,7 @@ def run(chk: Check) -> None:
     for t in allrec:
         chk.distinct.add(t["meta"])
     chk.sample({"meta": rec[0]["meta"], "events": [(e["ev"], e["d"], e["n"], e["ok"]) for e in rec[0]["events"][:14]]}, cap=3)
-    chk.extra["sessions"] = {"unbounded": len(rec), "bounded_pipe": len(rec_b), "blocking": len(rec_s), "events": res.nevents, "rejected": len(res.rejected)}
+    chk.extra["sessions"] = {"unbounded": len(rec), "bounded_pipe": len(rec_b), "blocking": len(rec_s), "request_response": len(rec_p), "abandoned_queued_sender": len(rec_a), "events": res.nevents, "rejected": len(res.rejected)}
     for idx, pos in sorted(res.rejected.items())[:40]:
         t = allrec[idx]
         evs = t["events"]
